@@ -8,7 +8,7 @@ def run(run):
     run.rule = ('contexts as C03 with emphasis on duplicate rows/columns, full rows, empty and full columns; for every concept: '
                 'objects, properties (context order), atoms, str(concept); each object/property in exactly one label')
     d = run.driver
-    for tab, pc in lat.contexts(run, exh_quick=9, rand_quick=400, wide_quick=30, exh_thorough=12, nmax=10, mmax=9):
+    for tab, pc in lat.contexts(run, exh_quick=10, rand_quick=500, wide_quick=30, exh_thorough=14, nmax=10, mmax=9):
         if min(pc.n, pc.m) > 12:
             continue
         extra = {'objects': pc.objects, 'properties': pc.properties, 'bools': pc.bools}
